@@ -15,6 +15,7 @@
 package storage
 
 import (
+	"bytes"
 	"errors"
 	"io"
 	"time"
@@ -23,6 +24,7 @@ import (
 	"github.com/emitter-io/emitter/internal/message"
 	"github.com/emitter-io/emitter/internal/security"
 	"github.com/emitter-io/emitter/internal/service/survey"
+	"github.com/kelindar/binary"
 )
 
 var (
@@ -84,6 +86,60 @@ func newLookupQuery(ssid message.Ssid, from, until time.Time, startFromID messag
 		StartFromID: startFromID,
 		Limit:       limit,
 	}
+}
+
+// decodeLookupQuery decodes a query received from the cluster. It reads the format
+// binary.Marshal produces for a lookupQuery, but refuses a number of SSID parts or a
+// length of the continuation ID which the payload could not hold: the generic codec
+// sizes its slices by whatever the payload announces.
+func decodeLookupQuery(payload []byte) (q lookupQuery, err error) {
+	d := binary.NewDecoder(bytes.NewReader(payload))
+	var n uint64
+	if n, err = d.ReadUvarint(); err != nil {
+		return q, err
+	}
+
+	if n > uint64(len(payload)) {
+		return q, io.ErrUnexpectedEOF
+	}
+
+	if n > 0 {
+		q.Ssid = make(message.Ssid, n)
+		for i := range q.Ssid {
+			var part uint64
+			if part, err = d.ReadUvarint(); err != nil {
+				return q, err
+			}
+			q.Ssid[i] = uint32(part)
+		}
+	}
+
+	if q.From, err = d.ReadVarint(); err != nil {
+		return q, err
+	}
+
+	if q.Until, err = d.ReadVarint(); err != nil {
+		return q, err
+	}
+
+	if n, err = d.ReadUvarint(); err != nil {
+		return q, err
+	}
+
+	if n > uint64(len(payload)) {
+		return q, io.ErrUnexpectedEOF
+	}
+
+	if n > 0 {
+		q.StartFromID = make(message.ID, n)
+		if _, err = io.ReadFull(d, q.StartFromID); err != nil {
+			return q, err
+		}
+	}
+
+	limit, err := d.ReadVarint()
+	q.Limit = int(limit)
+	return q, err
 }
 
 // configUint32 retrieves an uint32 from the config
